@@ -181,7 +181,7 @@ func Run(c *vf.Check) {
 				}
 			}
 			gn, k := gn, k
-			jobs = append(jobs, func() { runSimple(c, gn, k) }, func() { runForge(c, gn, k) })
+			jobs = append(jobs, func() { runSimple(c, gn, k) }, func() { runForge(c, gn, k) }, func() { runAdjustedOutput(c, gn, k) })
 			for nq := 1; nq <= 3; nq++ {
 				nq := nq
 				jobs = append(jobs, func() { runSequences(c, gn, k, nq) })
